@@ -259,9 +259,9 @@ pub fn check_cmd(tier: Tier) -> i32 {
         packaging,
         comp,
         contents: vec![
-            ContentSpec { len: 30, ent: Entropy::Text, seed: s32, hint: Hint::Yes, source: Source::Mem, dup_of: None },
-            ContentSpec { len: 0, ent: Entropy::Zero, seed: 1, hint: Hint::No, source: Source::Mem, dup_of: None },
-            ContentSpec { len: 17, ent: Entropy::High, seed: s32 ^ 9, hint: Hint::No, source: Source::Mem, dup_of: None },
+            ContentSpec { len: 30, ent: Entropy::Text, seed: s32, hint: Hint::Yes, source: Source::Mem, dup_of: None, flip: None },
+            ContentSpec { len: 0, ent: Entropy::Zero, seed: 1, hint: Hint::No, source: Source::Mem, dup_of: None, flip: None },
+            ContentSpec { len: 17, ent: Entropy::High, seed: s32 ^ 9, hint: Hint::No, source: Source::Mem, dup_of: None, flip: None },
         ],
         extra_packs: vec![],
         dedup: false,
